@@ -266,6 +266,43 @@ type mkRec struct {
 	Next *mkRec
 }
 
+// two distinct types that share package path and name (declared in different function scopes)
+func mkLocalA() (reflect.Type, func() *rapid.Generator[any]) {
+	type Local struct {
+		A int8
+		B string
+	}
+	return reflect.TypeOf(Local{}), func() *rapid.Generator[any] { return rapid.Make[Local]().AsAny() }
+}
+
+func mkLocalB() (reflect.Type, func() *rapid.Generator[any]) {
+	type Local struct {
+		X []bool
+		Y *Local
+	}
+	return reflect.TypeOf(Local{}), func() *rapid.Generator[any] { return rapid.Make[Local]().AsAny() }
+}
+
+func mkLocalC() (reflect.Type, func() *rapid.Generator[any]) {
+	type Local uint16
+	return reflect.TypeOf(map[Local][]Local{}), func() *rapid.Generator[any] { return rapid.Make[map[Local][]Local]().AsAny() }
+}
+
+func init() {
+	for name, f := range map[string]func() (reflect.Type, func() *rapid.Generator[any]){"localA": mkLocalA, "localB": mkLocalB, "localC": mkLocalC} {
+		typ, build := f()
+		makeTypes[name] = struct {
+			typ   reflect.Type
+			build func() *rapid.Generator[any]
+		}{typ, build}
+	}
+	makeTypeNames = nil
+	for k := range makeTypes {
+		makeTypeNames = append(makeTypeNames, k)
+	}
+	sort.Strings(makeTypeNames)
+}
+
 var makeTypes = map[string]struct {
 	typ   reflect.Type
 	build func() *rapid.Generator[any]
